@@ -1,6 +1,7 @@
 //! database-related trace monitors of the outstation engine (C03 event ledger, C11 read series,
 //! C13 class / overflow bits, C14 enabled classes), evaluated on the implementation's trace with
 //! an independent decoder and an independent ledger of what the harness itself put in.
+use crate::eng_db::{ev_obj_size, has_deadband, norm_value, owes_event, pack_width, ref_event_obj, ref_static_obj, st_obj_size, static_variation, Ty, Val};
 use crate::util::{hex, unhex};
 use std::collections::{BTreeMap, HashSet};
 use std::io::Write;
@@ -13,27 +14,29 @@ fn fail(mon: &mut dyn Write, hdr: &str, name: &str, cause: &str, detail: &str) {
 #[derive(Clone, Debug, PartialEq)]
 struct Ev {
     id: u64,
-    is_bin: bool,
+    ty: Ty,
     idx: u16,
     class: u8,
-    /// wire image of the event object after the index: g2v1 = [flags|state]; g32v1 = [flags, i32 le]
-    image: Vec<u8>,
+    /// what the harness put in (the wire image depends on the variation the event is reported in)
+    val: Val,
     released: bool,
     discarded: bool,
 }
 
 #[derive(Clone, Debug, PartialEq)]
 enum Obj {
-    BinEvent(u16, Vec<u8>),
-    AnEvent(u16, Vec<u8>),
-    BinStatic(u16, u8),
-    AnStatic(u16, Vec<u8>),
+    /// type, index, variation, object octets, common time of the preceding g51 header
+    Event(Ty, u16, u8, Vec<u8>, Option<u64>),
+    /// group, variation, index, object octets (packed variations: one octet holding the bit(s))
+    Static(u8, u8, u16, Vec<u8>),
     Other,
 }
 
-/// decode the object headers of a response in this engine's vocabulary
+/// decode the object headers of a response in this engine's vocabulary: the static and event groups of
+/// the eight point types (+ g34), the g51 common time, control echoes (g12, g41), g52
 fn decode(mut b: &[u8]) -> Option<Vec<Obj>> {
     let mut res = Vec::new();
+    let mut cto: Option<u64> = None;
     while !b.is_empty() {
         if b.len() < 3 {
             return None;
@@ -74,33 +77,46 @@ fn decode(mut b: &[u8]) -> Option<Vec<Obj>> {
             }
             _ => return None,
         };
-        if (g, v) == (1, 1) {
-            // packed bits: consumed, not interpreted here
-            let bytes = (count + 7) / 8;
+        let w = pack_width(g, v);
+        if w != 0 && isz == 0 {
+            // packed bits / double bits over a range
+            let per = 8 / w;
+            let bytes = count.div_ceil(per);
             if b.len() < bytes {
                 return None;
             }
+            for k in 0..count {
+                let val = (b[k / per] >> ((k % per) * w)) & ((1u8 << w) - 1);
+                res.push(Obj::Static(g, v, (start + k) as u16, vec![val]));
+            }
             b = &b[bytes..];
+            continue;
+        }
+        if g == 51 && q == 0x07 && count == 1 && (v == 1 || v == 2) {
+            if b.len() < 6 { return None; }
+            let mut t = [0u8; 8];
+            t[..6].copy_from_slice(&b[..6]);
+            cto = Some(u64::from_le_bytes(t));
+            b = &b[6..];
             res.push(Obj::Other);
             continue;
         }
-        let size = match (g, v) {
-            (1, 2) => 1,
-            (2, 1) => 1,
-            (30, 1) => 5,
-            (30, 2) => 3,
-            (30, 3) => 4,
-            (30, 4) => 2,
-            (30, 5) => 5,
-            (30, 6) => 9,
-            (32, 1) => 5,
-            (12, 1) => 11,
-            (41, 1) => 5,
-            (41, 2) => 3,
-            (41, 3) => 5,
-            (41, 4) => 9,
-            (52, _) => 2,
-            _ => return None,
+        let ev_ty = if isz == 2 { Ty::from_event_group(g) } else { None };
+        let st_known = isz == 0 && (Ty::from_static_group(g).is_some() || g == 34);
+        let size = if ev_ty.is_some() {
+            ev_obj_size(g, v)?
+        } else if st_known {
+            st_obj_size(g, v)?
+        } else {
+            match (g, v) {
+                (12, 1) => 11,
+                (41, 1) => 5,
+                (41, 2) => 3,
+                (41, 3) => 5,
+                (41, 4) => 9,
+                (52, _) => 2,
+                _ => return None,
+            }
         };
         for i in 0..count {
             if b.len() < isz + size {
@@ -113,34 +129,32 @@ fn decode(mut b: &[u8]) -> Option<Vec<Obj>> {
             };
             let body = b[isz..isz + size].to_vec();
             b = &b[isz + size..];
-            res.push(match (g, v) {
-                (2, 1) => Obj::BinEvent(idx, body),
-                (32, 1) => Obj::AnEvent(idx, body),
-                (1, 2) => Obj::BinStatic(idx, body[0]),
-                (30, 1) => Obj::AnStatic(idx, body),
-                _ => Obj::Other,
+            res.push(match ev_ty {
+                Some(ty) => Obj::Event(ty, idx, v, body, cto),
+                None if st_known => Obj::Static(g, v, idx, body),
+                None => Obj::Other,
             });
         }
     }
     Some(res)
 }
 
-fn analog_image(v: i64, flags: u8) -> Vec<u8> {
-    let (val, fl) = if v > i32::MAX as i64 {
-        (i32::MAX, flags | 0x20)
-    } else if v < i32::MIN as i64 {
-        (i32::MIN, flags | 0x20)
-    } else {
-        (v as i32, flags)
-    };
-    let mut r = vec![fl];
-    r.extend_from_slice(&val.to_le_bytes());
-    r
+/// the point as the harness knows it: class, configured static variation, current value
+#[derive(Clone, Debug)]
+struct Pt {
+    class: u8,
+    svar: u8,
+    val: Val,
+    /// the detector's dead-band and its baseline: the value last reported as an event
+    deadband: u64,
+    last_reported: Val,
 }
 
-fn binary_image(v: bool, flags: u8) -> u8 {
-    (flags & 0x7F) | if v { 0x80 } else { 0 }
+fn new_pt(ty: Ty, class: u8, deadband: u64) -> Pt {
+    Pt { class, svar: ty.add_vars().0, val: Val::default_of(ty), deadband: if has_deadband(ty) { deadband } else { 0 }, last_reported: Val::default_of(ty) }
 }
+
+type Pts = [BTreeMap<u16, Pt>; 8];
 
 struct TxRec {
     session: usize,
@@ -168,9 +182,12 @@ pub fn check(hdr: &str, lines: &[String], trace: &[(String, Vec<String>)], mon: 
     let mut session = 0usize;
     let mut d3_panic: Option<usize> = None;
     // ---- what the harness put in
-    let mut bin_pts: BTreeMap<u16, (u8, u8)> = BTreeMap::new(); // idx -> (class, current wire octet)
-    let mut an_pts: BTreeMap<u16, (u8, Vec<u8>)> = BTreeMap::new();
-    let mut evmax: usize = 10;
+    let mut pts: Pts = Default::default();
+    // per-type event maxima (`evmax=n`: binary and analog inputs; `evcfg=…`: all eight) and class-zero types
+    let mut evmax: [usize; 8] = [0; 8];
+    evmax[Ty::Bin.idx()] = 10;
+    evmax[Ty::An.idx()] = 10;
+    let mut czero: u8 = 0x7F;
     let mut unsolicited = false;
     let mut anymaster = false;
     let mut selfaddr = false;
@@ -219,7 +236,17 @@ pub fn check(hdr: &str, lines: &[String], trace: &[(String, Vec<String>)], mon: 
             "cfg" => {
                 for w in &ws[1..] {
                     if let Some(v) = w.strip_prefix("evmax=") {
-                        evmax = v.parse().unwrap();
+                        evmax = [0; 8];
+                        evmax[Ty::Bin.idx()] = v.parse().unwrap();
+                        evmax[Ty::An.idx()] = v.parse().unwrap();
+                    }
+                    if let Some(v) = w.strip_prefix("evcfg=") {
+                        for (i, x) in v.split(',').take(8).enumerate() {
+                            evmax[i] = x.parse().unwrap();
+                        }
+                    }
+                    if let Some(v) = w.strip_prefix("czero=") {
+                        czero = v.parse().unwrap();
                     }
                     if let Some(v) = w.strip_prefix("unsolicited=") {
                         unsolicited = v == "1";
@@ -232,20 +259,23 @@ pub fn check(hdr: &str, lines: &[String], trace: &[(String, Vec<String>)], mon: 
                     }
                 }
             }
-            "addbin" | "addan" => {
+            "addbin" | "addan" | "add" => {
                 let ok = outs.iter().any(|o| o == "add 1");
                 if ok {
                     any_point = true;
-                    let idx: u16 = ws[1].parse().unwrap();
-                    let class: u8 = ws[2].parse().unwrap();
-                    if ws[0] == "addbin" {
-                        bin_pts.insert(idx, (class, 0x02)); // default: RESTART flag
-                    } else {
-                        an_pts.insert(idx, (class, vec![0x02, 0, 0, 0, 0]));
-                    }
+                    let (ty, a) = match ws[0] {
+                        "addbin" => (Ty::Bin, 1),
+                        "addan" => (Ty::An, 1),
+                        _ => (Ty::from_code(ws[1]).unwrap(), 2),
+                    };
+                    let idx: u16 = ws[a].parse().unwrap();
+                    let class: u8 = ws[a + 1].parse().unwrap();
+                    let deadband: u64 = ws.get(a + 2).map(|x| x.parse().unwrap()).unwrap_or(0);
+                    pts[ty.idx()].insert(idx, new_pt(ty, class, deadband));
                 }
             }
             "addmany" => {
+                let ty = Ty::from_code(ws[1]).unwrap();
                 let start: u16 = ws[2].parse().unwrap();
                 let count: u16 = ws[3].parse().unwrap();
                 let class: u8 = ws[4].parse().unwrap();
@@ -254,44 +284,54 @@ pub fn check(hdr: &str, lines: &[String], trace: &[(String, Vec<String>)], mon: 
                     any_point = true;
                 }
                 for i in 0..count {
-                    let idx = start + i;
                     // a point that already existed keeps its configuration (add returns false)
-                    if ws[1] == "bin" {
-                        bin_pts.entry(idx).or_insert((class, 0x02));
-                    } else {
-                        an_pts.entry(idx).or_insert((class, vec![0x02, 0, 0, 0, 0]));
-                    }
+                    pts[ty.idx()].entry(start + i).or_insert(new_pt(ty, class, 0));
                 }
             }
             "txn" => {
                 let upd: Vec<&String> = outs.iter().filter(|o| o.starts_with("upd ")).collect();
                 for (item, res) in ws[1..].iter().zip(upd.iter()) {
                     let p: Vec<&str> = item.split(':').collect();
-                    let is_bin = p[0] == "bin";
+                    let ty = Ty::from_code(p[0]).unwrap();
                     let idx: u16 = p[1].parse().unwrap();
                     let flags: u8 = p[3].parse().unwrap();
-                    let (class, image) = if is_bin {
-                        let img = binary_image(p[2] == "1", flags);
-                        match bin_pts.get_mut(&idx) {
-                            Some(e) => {
-                                e.1 = img;
-                                (e.0, vec![img])
-                            }
-                            None => (0, vec![img]),
-                        }
+                    let time: u64 = if p[4] == "-" { 0 } else { p[4].parse().unwrap() };
+                    let val = if ty == Ty::Os {
+                        Val { v: 0, flags: 0, time: 0, octets: unhex(p[2]) }
                     } else {
-                        let img = analog_image(p[2].parse().unwrap(), flags);
-                        match an_pts.get_mut(&idx) {
-                            Some(e) => {
-                                e.1 = img.clone();
-                                (e.0, img)
+                        Val { v: norm_value(ty, p[2].parse().unwrap()), flags, time, octets: vec![] }
+                    };
+                    // `UpdateOptions` number: 0..2 = Detect / Force / Suppress, +3 = update_static false
+                    let opts: u8 = p.get(5).map(|x| x.parse().unwrap()).unwrap_or(0);
+                    let (update_static, mode) = (opts % 6 < 3, opts % 3);
+                    let rword = res.split_whitespace().nth(1).unwrap_or("?");
+                    let class = match pts[ty.idx()].get_mut(&idx) {
+                        Some(e) => {
+                            // the event rule: Suppress never, Force always, Detect iff the flags changed or the value is
+                            // beyond the dead-band of the value LAST REPORTED as an event; the baseline moves with it
+                            let wants = match mode {
+                                0 => owes_event(ty, e.deadband, &e.last_reported, &val),
+                                1 => true,
+                                _ => false,
+                            };
+                            let recordable = (1..=3).contains(&e.class) && evmax[ty.idx()] != 0;
+                            let got_event = rword == "created" || rword == "overflow";
+                            if got_event != (wants && recordable) {
+                                fail(mon, hdr, "event_iff_beyond_deadband_of_last_reported", "", &format!("op {k}: {res} for {item}: dead-band {}, an event is {}owed (class {}, type maximum {})", e.deadband, if wants { "" } else { "not " }, e.class, evmax[ty.idx()]));
                             }
-                            None => (0, img),
+                            if update_static {
+                                e.val = val.clone();
+                            }
+                            if wants {
+                                e.last_reported = val.clone();
+                            }
+                            e.class
                         }
+                        None => 0,
                     };
                     let r: Vec<&str> = res.split_whitespace().collect();
                     match r[1] {
-                        "created" => ledger.push(Ev { id: r[2].parse().unwrap(), is_bin, idx, class, image, released: false, discarded: false }),
+                        "created" => ledger.push(Ev { id: r[2].parse().unwrap(), ty, idx, class, val, released: false, discarded: false }),
                         "overflow" => {
                             let disc: u64 = r[3].parse().unwrap();
                             match ledger.iter_mut().find(|e| e.id == disc) {
@@ -304,19 +344,22 @@ pub fn check(hdr: &str, lines: &[String], trace: &[(String, Vec<String>)], mon: 
                                 }
                                 _ => fail(mon, hdr, "overflow_reported", "", &format!("op {k}: discarded id {disc} is not an alive event")),
                             }
-                            let oldest = ledger.iter().filter(|e| e.is_bin == is_bin && !e.released).map(|e| (e.id, e.discarded)).next();
-                            let _ = oldest;
-                            ledger.push(Ev { id: r[2].parse().unwrap(), is_bin, idx, class, image, released: false, discarded: false });
+                            // the discarded event must be the oldest alive one of that type
+                            let oldest = ledger.iter().filter(|e| e.ty == ty && !e.released && (!e.discarded || e.id == disc)).map(|e| e.id).next();
+                            if oldest != Some(disc) {
+                                fail(mon, hdr, "overflow_discards_oldest_of_type", "", &format!("op {k}: discarded id {disc}, oldest alive {} event {:?}", ty.code(), oldest));
+                            }
+                            ledger.push(Ev { id: r[2].parse().unwrap(), ty, idx, class, val, released: false, discarded: false });
                             overflow_expected = true;
                         }
                         _ => {}
                     }
                 }
                 // capacity respected per type
-                for is_bin in [true, false] {
-                    let n = ledger.iter().filter(|e| e.is_bin == is_bin && !e.released && !e.discarded).count();
-                    if n > evmax {
-                        fail(mon, hdr, "event_buffer_capacity", "", &format!("op {k}: {n} alive events > {evmax}"));
+                for ty in Ty::ALL {
+                    let n = ledger.iter().filter(|e| e.ty == ty && !e.released && !e.discarded).count();
+                    if n > evmax[ty.idx()] {
+                        fail(mon, hdr, "event_buffer_capacity", "", &format!("op {k}: {n} alive {} events > {}", ty.code(), evmax[ty.idx()]));
                     }
                 }
             }
@@ -471,7 +514,7 @@ pub fn check(hdr: &str, lines: &[String], trace: &[(String, Vec<String>)], mon: 
                 }
             }
             // overflow flag clears when a confirmation leaves every type below capacity
-            let full = [true, false].iter().any(|b| evmax > 0 && ledger.iter().filter(|e| e.is_bin == *b && !e.released && !e.discarded).count() >= evmax);
+            let full = Ty::ALL.iter().any(|t| evmax[t.idx()] > 0 && ledger.iter().filter(|e| e.ty == *t && !e.released && !e.discarded).count() >= evmax[t.idx()]);
             if !full {
                 overflow_expected = false;
             }
@@ -501,7 +544,7 @@ pub fn check(hdr: &str, lines: &[String], trace: &[(String, Vec<String>)], mon: 
             } else if f.len() >= 2 && f[1] == 1 && f[0] & 0xF0 == 0xC0 {
                 // the expectation (snapshot) is taken when the first fragment is transmitted: at once for a
                 // READ processed from idle, when the unsolicited series ends for a deferred READ
-                series = expected_static(&f[2..], &bin_pts, &an_pts).map(|want| Series { req: f[2..].to_vec(), want, got: Vec::new(), first_seq: f[0] & 0x0F, next_seq: f[0] & 0x0F, frags: 0, valid: true, to: ws[1].to_string() });
+                series = expected_static(&f[2..], &pts, czero).map(|want| Series { req: f[2..].to_vec(), want, got: Vec::new(), first_seq: f[0] & 0x0F, next_seq: f[0] & 0x0F, frags: 0, valid: true, to: ws[1].to_string() });
             } else if f.len() >= 2 && !(f[1] == 0 && f[0] & 0xC0 == 0xC0) {
                 // anything but a well-formed CONFIRM supersedes (header errors such as a non FIR/FIN control
                 // octet included: they are answered with the request's sequence number)
@@ -532,8 +575,7 @@ pub fn check(hdr: &str, lines: &[String], trace: &[(String, Vec<String>)], mon: 
             };
             // FIFO match of event objects against the ledger, per type, oldest first
             let mut carried = Vec::new();
-            let mut pos_bin = 0usize;
-            let mut pos_an = 0usize;
+            let mut pos = [0usize; 8];
             let mut classes_in_tx = [false; 3];
             let resend = sent.contains(&b);
             if resend {
@@ -544,13 +586,14 @@ pub fn check(hdr: &str, lines: &[String], trace: &[(String, Vec<String>)], mon: 
                 if resend {
                     break;
                 }
-                let (is_bin, idx, img) = match ob {
-                    Obj::BinEvent(i, v) => (true, *i, v.clone()),
-                    Obj::AnEvent(i, v) => (false, *i, v.clone()),
+                let (ty, idx, var, raw, cto) = match ob {
+                    Obj::Event(t, i, v, r, c) => (*t, *i, *v, r.clone(), *c),
                     _ => continue,
                 };
-                let pos = if is_bin { &mut pos_bin } else { &mut pos_an };
-                let found = ledger.iter().enumerate().skip(*pos).find(|(_, e)| e.is_bin == is_bin && !e.released && !e.discarded && e.idx == idx && e.image == img && !carried.contains(&e.id));
+                let pos = &mut pos[ty.idx()];
+                let found = ledger.iter().enumerate().skip(*pos).find(|(_, e)| {
+                    e.ty == ty && !e.released && !e.discarded && e.idx == idx && !carried.contains(&e.id) && ref_event_obj(ty, var, &e.val, cto).as_deref() == Some(&raw[..])
+                });
                 match found {
                     Some((i, e)) => {
                         *pos = i + 1;
@@ -560,8 +603,8 @@ pub fn check(hdr: &str, lines: &[String], trace: &[(String, Vec<String>)], mon: 
                         }
                     }
                     None => {
-                        let stale = ledger.iter().any(|e| e.is_bin == is_bin && e.idx == idx && e.image == img && (e.released || e.discarded));
-                        fail(mon, hdr, "nothing_invented", "", &format!("op {k}: event object idx {idx} {} is not a recorded unreleased event (or out of order){}", hex(&img), if stale { " [matches a released/discarded one]" } else { "" }));
+                        let stale = ledger.iter().any(|e| e.ty == ty && e.idx == idx && (e.released || e.discarded) && ref_event_obj(ty, var, &e.val, cto).as_deref() == Some(&raw[..]));
+                        fail(mon, hdr, "nothing_invented", "", &format!("op {k}: event object g{}v{var} idx {idx} {} is not a recorded unreleased event (or out of order){}", ty.event_group(), hex(&raw), if stale { " [matches a released/discarded one]" } else { "" }));
                     }
                 }
             }
@@ -644,7 +687,7 @@ pub fn check(hdr: &str, lines: &[String], trace: &[(String, Vec<String>)], mon: 
                         // not the answer to the tracked READ (e.g. an echo): ignore
                     } else {
                         if s.frags == 0 {
-                            if let Some(w) = expected_static(&s.req, &bin_pts, &an_pts) {
+                            if let Some(w) = expected_static(&s.req, &pts, czero) {
                                 s.want = w;
                             }
                         }
@@ -657,11 +700,11 @@ pub fn check(hdr: &str, lines: &[String], trace: &[(String, Vec<String>)], mon: 
                                 s.valid = false;
                             }
                         }
-                        let has_events = objs.iter().any(|o| matches!(o, Obj::BinEvent(..) | Obj::AnEvent(..)));
+                        let has_events = objs.iter().any(|o| matches!(o, Obj::Event(..)));
                         if (!fin || has_events) && !con {
                             fail(mon, hdr, "series_shape", "", &format!("op {k}: non-final or event-bearing fragment without CON: {}", hex(&b[..4])));
                         }
-                        s.got.extend(objs.iter().filter(|o| matches!(o, Obj::BinStatic(..) | Obj::AnStatic(..))).cloned());
+                        s.got.extend(objs.iter().filter(|o| matches!(o, Obj::Static(..))).cloned());
                         s.frags += 1;
                         s.next_seq = (seq + 1) & 0x0F;
                         if fin {
@@ -715,13 +758,11 @@ pub fn check(hdr: &str, lines: &[String], trace: &[(String, Vec<String>)], mon: 
 }
 
 /// the static objects a READ of these headers must report: per header in request order, each
-/// existing point once, ascending.  `None` when the request contains a header outside the
-/// vocabulary handled here (no expectation is formed).
-fn expected_static(mut o: &[u8], bins: &BTreeMap<u16, (u8, u8)>, ans: &BTreeMap<u16, (u8, Vec<u8>)>) -> Option<Vec<Obj>> {
+/// existing point once, ascending, in the requested (else the configured) variation after promotion.
+/// `None` when the request contains a header the request parser does not accept in a READ or one outside
+/// the vocabulary handled here (no expectation is formed).
+fn expected_static(mut o: &[u8], pts: &Pts, czero: u8) -> Option<Vec<Obj>> {
     let mut want = Vec::new();
-    let mut seen_bin: HashSet<u16> = HashSet::new();
-    let mut seen_an: HashSet<u16> = HashSet::new();
-    let _ = (&mut seen_bin, &mut seen_an);
     while !o.is_empty() {
         if o.len() < 3 {
             return None;
@@ -754,7 +795,6 @@ fn expected_static(mut o: &[u8], bins: &BTreeMap<u16, (u8, u8)>, ans: &BTreeMap<
             }
             _ => return None,
         };
-        let in_range = |i: u16| range.map(|(s, e)| s <= i && i <= e).unwrap_or(true);
         if let Some((s, e)) = range {
             if e < s {
                 return None;
@@ -762,41 +802,38 @@ fn expected_static(mut o: &[u8], bins: &BTreeMap<u16, (u8, u8)>, ans: &BTreeMap<
         }
         let ranged_ok = matches!(q, 0x06 | 0x00 | 0x01);
         let counted_ok = matches!(q, 0x06 | 0x07 | 0x08);
-        let valid = match (g, v) {
-            (60, 1) => q == 0x06,
-            (60, _) | (2, _) | (32, _) => counted_ok,
-            (1, _) | (30, _) => ranged_ok,
-            _ => false,
+        let st_ty = Ty::from_static_group(g);
+        let ev_ty = Ty::from_event_group(g);
+        let valid = if g == 60 {
+            if v == 1 { q == 0x06 } else { (2..=4).contains(&v) && counted_ok }
+        } else if let Some(t) = st_ty {
+            ranged_ok && (v == 0 || t.static_vars().contains(&v))
+        } else if let Some(t) = ev_ty {
+            // g111 with a count accepts every variation (answered NO_FUNC_CODE_SUPPORT unless 0)
+            counted_ok && (v == 0 || t.event_vars().contains(&v) || (t == Ty::Os && q != 0x06))
+        } else {
+            false
         };
         if !valid {
             return None;
         }
-        match (g, v) {
-            (60, 1) => {
-                for (i, (_, img)) in bins {
-                    want.push(Obj::BinStatic(*i, *img));
-                }
-                for (i, (_, img)) in ans {
-                    want.push(Obj::AnStatic(*i, img.clone()));
-                }
-            }
-            (60, 2) | (60, 3) | (60, 4) | (2, _) | (32, _) => {}
-            (1, 1) | (30, 2) | (30, 3) | (30, 4) | (30, 5) | (30, 6) => return None,
-            (1, 0) | (1, 2) => {
-                for (i, (_, img)) in bins {
-                    if in_range(*i) {
-                        want.push(Obj::BinStatic(*i, *img));
-                    }
+        let mut push_type = |ty: Ty, req: u8, whole: bool| {
+            let map = &pts[ty.idx()];
+            for (i, p) in map.iter() {
+                if whole || range.map(|(s, e)| s <= *i && *i <= e).unwrap_or(true) {
+                    let (eg, ev) = static_variation(ty, req, p.svar, &p.val);
+                    want.push(Obj::Static(eg, ev, *i, ref_static_obj(eg, ev, &p.val)));
                 }
             }
-            (30, 0) | (30, 1) => {
-                for (i, (_, img)) in ans {
-                    if in_range(*i) {
-                        want.push(Obj::AnStatic(*i, img.clone()));
-                    }
+        };
+        if (g, v) == (60, 1) {
+            for ty in Ty::ALL {
+                if czero & (1 << ty.idx()) != 0 {
+                    push_type(ty, 0, true);
                 }
             }
-            _ => return None,
+        } else if let Some(ty) = st_ty {
+            push_type(ty, v, false);
         }
     }
     Some(want)
